@@ -64,6 +64,8 @@ SubPats(p) ==
       [] p = 2 -> << <<255, 255, 255, 255>>, <<0, 0, 0, 128>>, <<255, 255, 255, 127>> >>          \* 2^32-1, 2^31, 2^31-1
       [] p = 3 -> << <<0, 0, 0, 0>>, <<1, 0, 0, 0>>, <<0, 202, 154, 59>> >>                       \* 0, 1, 10^9
       [] p = 4 -> << <<255, 201, 154, 59>>, <<1, 0, 0, 128>>, <<254, 255, 255, 255>> >>           \* 10^9-1, 2^31+1, 2^32-2
+      [] p = 6 -> LET lo(i) == SubSeq(Pattern((Seed * 137 + 6 * 17 + i) % 65537, 4), 1, 3) IN     \* the most significant byte of each
+                  << lo(1) \o <<32>>, lo(2) \o <<10>>, lo(3) \o <<<<9, 11, 12, 13>>[(Seed % 4) + 1]>> >>   \* is an ASCII white-space character (the last octet of the binary SID)
       [] OTHER -> [i \in 1..3 |-> Pattern((Seed * 131 + p * 17 + i) % 65537, 4)]                  \* seeded
 Rot(s, k) == [i \in 1..3 |-> s[((i + k - 2) % 3) + 1]]
 DomSid(p, k) == SidEncode(LDSidAuthNT, <<LE(21, 4)>> \o Rot(SubPats(p), k))
